@@ -58,6 +58,12 @@ type env struct {
 	ops       []string
 	inJob     bool // a compaction / cleanup is running (hooks may run nested reader operations)
 	nestBudg  int
+	inWriter    bool // a flusher is adding data / committing
+	writerNest  int
+	jobNest     int
+	inNestedJob bool
+	jobFam      string
+	flushNest   int
 	classes   map[string]int
 	ntSnaps   int
 	pendingFl kv.Flusher // an unfinished writer (flusher with data added but not yet committed)
@@ -119,10 +125,87 @@ func (e *env) fsHook(op, path string, before bool) {
 			e.nested("after-removeDir")
 		}
 	case "listDir":
+		// a complete flush of another writer may land anywhere inside the obsolete-file pass
+		if e.inJob && !e.inNestedJob && !e.inWriter && e.flushNest > 0 && rapid.IntRange(0, 2).Draw(e.t, "nestedFlushAtListDir") == 0 {
+			e.flushNest--
+			e.inNestedJob = true
+			e.logf("  nested@%s-listDir: flush by another writer", map[bool]string{true: "before", false: "after"}[before])
+			e.opFlush()
+			e.inNestedJob = false
+			e.classes["flush-nested-in-cleanup"]++
+		}
 		if !before {
 			e.nested("after-listDir")
 		}
 	}
+}
+
+// tableHook runs at the table-file seams. While a writer (flush) creates its table, and while a
+// compaction writes its outputs, no kv lock is held: another job of the same family may run its
+// obsolete-file pass right there (in production: the trailing cleanup of a rollup / compaction job,
+// or the periodic store job). Files of unfinished writers and unfinished compactions must survive.
+func (e *env) tableHook(op, path string, before bool) {
+	if before || e.inNestedJob || e.violation != "" {
+		return
+	}
+	if op != "tableCreate" && op != "tableClose" {
+		return
+	}
+	fam := filepath.Base(filepath.Dir(path))
+	f, ok := e.fams[fam]
+	if !ok {
+		return
+	}
+	switch {
+	case e.inWriter && e.writerNest > 0:
+		e.writerNest--
+		kind := rapid.IntRange(0, 3).Draw(e.t, "nestedJobAtWriterSeam")
+		if kind == 0 {
+			return
+		}
+		e.inNestedJob = true
+		if kind == 1 {
+			e.logf("  nested@%s(%s): deleteObsolete %s", op, filepath.Base(path), fam)
+			kv.VerifDeleteObsoleteFiles(f)
+		} else {
+			e.logf("  nested@%s(%s): compact %s", op, filepath.Base(path), fam)
+			if _, err := kv.VerifCompactSync(f, kind == 2); err != nil {
+				e.violation = fmt.Sprintf("nested compaction failed: %v", err)
+			}
+		}
+		e.inNestedJob = false
+		e.classes["job-nested-in-writer"]++
+	case e.inJob && e.jobNest > 0:
+		e.jobNest--
+		if rapid.IntRange(0, 2).Draw(e.t, "nestedCleanupAtCompactionSeam") == 0 {
+			return
+		}
+		e.inNestedJob = true
+		e.logf("  nested@%s(%s): deleteObsolete %s (inside a running job)", op, filepath.Base(path), fam)
+		kv.VerifDeleteObsoleteFiles(f)
+		e.inNestedJob = false
+		e.classes["cleanup-nested-in-compaction"]++
+	}
+}
+
+// manifestHook: the seam right before a job commits its edit log (outputs are finished, not yet
+// part of any version). The commit holds the version-set mutex, which the obsolete-file pass never takes.
+func (e *env) manifestHook(op, _ string, before bool) {
+	if !before || op != "manifestWrite" || !e.inJob || e.inNestedJob || e.jobFam == "" || e.violation != "" {
+		return
+	}
+	if rapid.IntRange(0, 1).Draw(e.t, "nestedCleanupBeforeCommit") == 0 {
+		return
+	}
+	f, ok := e.fams[e.jobFam]
+	if !ok {
+		return
+	}
+	e.inNestedJob = true
+	e.logf("  nested@before-commit: deleteObsolete %s (inside a running job)", e.jobFam)
+	kv.VerifDeleteObsoleteFiles(f)
+	e.inNestedJob = false
+	e.classes["cleanup-nested-before-commit"]++
 }
 
 func (e *env) unmapHook(path string) {
@@ -187,6 +270,8 @@ func (e *env) opFlush() {
 	e.atom++
 	atom := e.atom
 	e.logf("flush %s keys=%v atom=%d", fam, keys, atom)
+	e.inWriter, e.writerNest = true, 2
+	defer func() { e.inWriter = false }()
 	fl := e.fams[fam].NewFlusher()
 	for _, k := range keys {
 		if err := fl.Add(k, kvsim.Encode(map[uint32]bool{atom: true})); err != nil {
@@ -218,6 +303,8 @@ func (e *env) opBeginWriter() {
 	keys := genKeys(e.t, 5)
 	e.atom++
 	e.logf("beginWriter %s keys=%v atom=%d", fam, keys, e.atom)
+	e.inWriter, e.writerNest = true, 2
+	defer func() { e.inWriter = false }()
 	fl := e.fams[fam].NewFlusher()
 	for _, k := range keys {
 		if err := fl.Add(k, kvsim.Encode(map[uint32]bool{e.atom: true})); err != nil {
@@ -251,7 +338,7 @@ func (e *env) opFinishWriter() {
 }
 
 func (e *env) runJob(name string, fn func()) {
-	e.inJob, e.nestBudg = true, 4
+	e.inJob, e.nestBudg, e.jobNest, e.flushNest = true, 4, 4, 1
 	fn()
 	e.inJob = false
 	if e.violation != "" {
@@ -265,7 +352,9 @@ func (e *env) opCompact() {
 	e.logf("compact %s force=%v", fam, force)
 	var ran bool
 	var err error
+	e.jobFam = fam
 	e.runJob("compact", func() { ran, err = kv.VerifCompactSync(e.fams[fam], force) })
+	e.jobFam = ""
 	if err != nil {
 		e.fatalf("compaction failed: %v", err)
 	}
@@ -484,9 +573,13 @@ func TestSnapshotStability(t *testing.T) {
 			e.model[n] = kvsim.Content{}
 		}
 		kv.VerifSetFSHook(e.fsHook)
+		table.VerifSetFSHook(e.tableHook)
+		version.VerifSetFSHook(e.manifestHook)
 		table.VerifSetUnmapHook(e.unmapHook)
 		defer func() {
 			kv.VerifSetFSHook(nil)
+			table.VerifSetFSHook(nil)
+			version.VerifSetFSHook(nil)
 			table.VerifSetUnmapHook(nil)
 			e.inJob = false
 			if e.pendingFl != nil {
